@@ -94,7 +94,12 @@ fn base_programs(thorough: bool) -> Vec<(String, Program)> {
         v.push((fam, p));
     }
     // counts, magnitudes and lengths beyond the other families (the quick ladder in both tiers)
-    crate::stmtfam::scale_programs(false, &mut v);
+    {
+        let mut scale = Vec::new();
+        crate::stmtfam::scale_programs(false, &mut scale);
+        // quick: up to 65 items (nesting up to 100); thorough: the whole quick ladder
+        v.extend(scale.into_iter().filter(|(fam, _)| thorough || crate::stmtfam::scale_n(fam) <= 65 || fam.contains("nested") || fam.contains("magnitude")));
+    }
     // expressions of size <= 1 in a few call-heavy contexts
     let space = crate::engines::c01::expr_space(1);
     for (t, size, xs) in &space {
